@@ -13,6 +13,7 @@ mod fam_corrupt;
 mod fam_crash;
 mod fam_foreign;
 mod fam_histr;
+mod fam_pair;
 mod fam_histw;
 mod fam_rfault;
 mod fam_rt;
